@@ -5,10 +5,12 @@ SPEC = {
     'title': 'Execute observations fit the size limit and stay consistent when truncated',
     'coq_check': 'C17_check',
     'parts': [
-        {'pkg': 'execute', 'src': 'harness/execute/c17_test.go', 'test': 'TestVerif_C17_trunc',
+        {'pkg': 'execute', 'src': 'harness/execute/c17_test.go', 'test': 'TestVerif_C17_trunc', 'fakes': True,
          'sinks': {'C17_trunc': 'trunc_judge'}, 'n': {'quick': 400, 'thorough': 12000}},
-        {'pkg': 'execute', 'src': 'harness/execute/c17_test.go', 'test': 'TestVerif_C17_step',
+        {'pkg': 'execute', 'src': 'harness/execute/c17_test.go', 'test': 'TestVerif_C17_step', 'fakes': True,
          'sinks': {'C17_step': 'step_judge'}, 'n': {'quick': 800, 'thorough': 24000}},
+        {'pkg': 'execute', 'src': 'harness/execute/c17_test.go', 'test': 'TestVerif_C17_observation', 'fakes': True,
+         'sinks': {'C17_observation': 'trunc_judge'}, 'n': {'quick': 40, 'thorough': 600}},
     ],
     'rule': 'observations with 1..4 chains (class deep: 1..2 chains with 3..5 reports), 0..5 commit reports per chain '
             '(adjacent or with holes), 0..3 messages per report of 20..1500 data bytes, token data with and without a message, '
@@ -29,7 +31,6 @@ SPEC = {
                   'Correspondence: the three functions against the model with real encoded sizes every run',
     'level_note': 'Trusted: Coq kernel, hand-written model, differential harness (incl. its size projection and witness-path search). No axioms. '
                   'Not covered: the GetCommitReports and Filter phases do not truncate (C17_other_phases_partial, stated only); '
-                  'Plugin.Observation end to end is not driven (truncateObservation is called in-package with maxSize as a parameter; '
-                  'maxObservationLength = ocr3types.MaxMaxObservationLength is passed by observation.go:245).',
+                  'Plugin.Observation is driven end to end in the GetMessages phase only (sink C17_observation, limit = the package constant maxObservationLength).',
     'modelled': 'truncateObservation, truncateLastCommit, truncateChain, removeCostlyMessages; Encode is an input (size table)',
 }
